@@ -218,6 +218,37 @@ def render_value(ctx, v, kind, tyname, out):
     if t is float and kind == 'debug':
         fmt_push(out, fmt_f64_debug(v0))
         return
+    if kind == 'debug' and t is SymStr:
+        # `{:?}` of a string with symbolic bytes (ASCII): fork per byte on the escape class, like str::escape_debug does
+        out_bytes = [0x22]
+        for b in v0.bytes:
+            if not is_sym(b):
+                out_bytes.extend(escape_debug_str(chr(b))[1:-1].encode() if b < 0x80 else [b])
+                continue
+            if ctx.branch(z3.UGE(b, 0x80)):
+                raise Unsupported('Debug of a symbolic non-ASCII byte')
+            k = ctx.decide([b == 0x22, b == 0x5c, b == 0x0a, b == 0x0d, b == 0x09, b == 0x00, z3.Or(z3.ULT(b, 0x20), b == 0x7f), z3.BoolVal(True)])
+            if k == 0:
+                out_bytes.extend(b'\\"')
+            elif k == 1:
+                out_bytes.extend(b'\\\\')
+            elif k == 2:
+                out_bytes.extend(b'\\n')
+            elif k == 3:
+                out_bytes.extend(b'\\r')
+            elif k == 4:
+                out_bytes.extend(b'\\t')
+            elif k == 5:
+                out_bytes.extend(b'\\0')
+            elif k == 6:
+                # \u{..} with lowercase hex digits of the byte: fork over the (few) control values
+                val = ctx.concretize_int(b, list(range(1, 0x20)) + [0x7f])
+                out_bytes.extend(('\\u{%x}' % val).encode())
+            else:
+                out_bytes.append(b)
+        out_bytes.append(0x22)
+        fmt_push(out, SymStr(tuple(out_bytes)))
+        return
     if kind == 'debug':
         txt = debug_text(v0, tyname)
         if txt is not None:
